@@ -3,7 +3,9 @@
 package client
 
 import (
+	"bytes"
 	"fmt"
+	"io"
 	"sort"
 	"sync"
 	"testing"
@@ -232,6 +234,27 @@ func c11Check(c c11Case) string {
 		}
 		if msg := c11Tiles(byFileParts[name], want); msg != "" {
 			return "payload parts of " + name + ": " + msg
+		}
+	}
+	// what is put on the wire: the encoder of every payload streams, for each part in header order,
+	// exactly the bytes [beg,end) of that part's file - so the bytes transmitted are the bytes to send
+	for i, p := range c11Payloads {
+		body, err := io.ReadAll(p.GetEncoder())
+		if err != nil {
+			return fmt.Sprintf("payload %d: reading the encoder: %s", i, err)
+		}
+		var want []byte
+		for _, pc := range bins[i] {
+			for o := pc.beg; o < pc.end; o++ {
+				want = append(want, vByte(pc.name, o))
+			}
+		}
+		if !bytes.Equal(body, want) {
+			at := 0
+			for at < len(body) && at < len(want) && body[at] == want[at] {
+				at++
+			}
+			return fmt.Sprintf("payload %d with parts %v: the encoder streams %d bytes, the parts add up to %d; first difference at stream offset %d (the bytes of some part are not the bytes [beg,end) of its file)", i, bins[i], len(body), len(want), at)
 		}
 	}
 	return c11Splits(c)
